@@ -313,3 +313,87 @@ def c19_trace_stage(res, props, n_each):
     res.traces += len(events)
     res.nontrivial += len({short_hash(e["case"]) for e in events})
     res.extra.setdefault("trace", []).append({"module": "Trace_Ragged", "events_per_width": len(events), "differences": diff, "wall_s": t.s()})
+
+
+# ------------------------------------------------------------------ hash-table machine stages (C11, C12)
+def hash_model_stage(res, prop, timeout=1500):
+    cfg = os.path.join(SPEC, "mc", f"MC_Hash.{prop}.{TIER}.cfg")
+    dump = os.path.join(scratch(), f"MC_Hash.{os.getpid()}.dump")
+    t = Timer()
+    r = tlc.run_tlc(os.path.join(SPEC, "mc", "MC_Hash.tla"), cfg, dump=dump, timeout=timeout)
+    tlc.require_clean(r, f"MC_Hash {prop} ({TIER})")
+    res.states += r["distinct"]
+    res.transitions += r["states"]
+    res.extra.setdefault("tlc", []).append({"module": "MC_Hash", "cfg": os.path.basename(cfg), "generated": r["states"], "distinct": r["distinct"], "wall_s": t.s()})
+    t2 = Timer()
+    tot, bad, samples = replay.replay_hash_dump(dump, prop)
+    os.remove(dump)
+    res.evaluations += tot["evals"]
+    res.nontrivial += tot["nontrivial"]
+    res.traces += tot["cases"]
+    res.unspec += tot["unspec"]
+    res.extra.setdefault("replay", []).append(dict(tot, wall_s=t2.s(), module="MC_Hash"))
+    for b in bad:
+        b["binding"] = "A:tlc->code"
+        b["family"] = "hash"
+    res.bad += bad
+    res.samples += samples[:2]
+    return res
+
+
+def _hash_shard(args):
+    path, timeout = args
+    r = tlc.run_tlc(os.path.join(SPEC, "trace", "Trace_Hash.tla"), os.path.join(SPEC, "trace", "Trace_Hash.cfg"),
+                    workers=1, timeout=timeout, env={"TRACE_FILE": path}, heap="2g", name=os.path.basename(path))
+    return path, r
+
+
+def hash_trace_stage(res, prop, n, shards=NCPU, timeout=900):
+    import concurrent.futures as cf
+    from . import drivers_hash, tlaparse
+    t = Timer()
+    ctx = mp.get_context("fork")
+    per = (n + shards - 1) // shards
+    with ctx.Pool(shards) as pool:
+        parts = pool.starmap(drivers_hash.generate_and_run, [(SEED * 1000 + k, per, prop) for k in range(shards)])
+    sc = scratch()
+    jobs = []
+    for k, progs in enumerate(parts):
+        for p in progs:
+            p["id"] = k * 100000 + p["id"]
+        path = os.path.join(sc, f"hashtrace.{os.getpid()}.{k}.json")
+        with open(path, "w") as f:
+            json.dump([{"id": p["id"], "steps": p["steps"], "rec": p["rec"]} for p in progs], f)
+        jobs.append((path, timeout))
+    byid = {p["id"]: p for progs in parts for p in progs}
+    states = skipped = 0
+    with cf.ThreadPoolExecutor(shards) as ex:
+        for path, r in ex.map(_hash_shard, jobs):
+            if r["errors"] or not r["finished"] or r["violated"]:
+                lines = r["stdout"].splitlines()
+                k = next((i for i, l in enumerate(lines) if l.startswith("Error:")), max(0, len(lines) - 30))
+                raise tlc.TLCError("hash trace validation did not run to the end:\n" + "\n".join(lines[k:k + 25]))
+            states += r["distinct"]
+            for raw in tlc.printed_tuples(r["stdout"]):
+                v = tlaparse.parse_value(raw)
+                if v[0] == "S":
+                    skipped += 1
+                    continue
+                pr = byid[v[1]]
+                rec = pr["rec"][v[2] - 1]
+                res.bad.append({"steps": pr["steps"][:v[2]], "opts": pr["opts"], "handle": v[3], "verdict": v[4], "expected": v[5],
+                                "observed": rec["res"] if v[3] == 0 else rec["obs"][v[3] - 1] if v[3] <= len(rec["obs"]) else None,
+                                "binding": "B:code->tlc", "family": "hash"})
+            os.remove(path)
+    nsteps = sum(len(p["steps"]) for p in byid.values())
+    res.states += states
+    res.transitions += states
+    res.evaluations += nsteps
+    res.nontrivial += len({short_hash(p["steps"]) for p in byid.values() if len(p["steps"]) >= 3})
+    res.traces += len(byid)
+    res.unspec += skipped
+    res.extra.setdefault("trace", []).append({"module": "Trace_Hash", "programs": len(byid), "steps": nsteps, "programs_cut_short": skipped,
+                                              "observations": sum(len(x["obs"]) for p in byid.values() for x in p["rec"]), "wall_s": t.s()})
+    any_p = next(iter(byid.values()))
+    res.samples.append({"program": any_p["steps"][:6], "opts": any_p["opts"], "recorded": any_p["rec"][min(5, len(any_p["rec"]) - 1)]})
+    return res
